@@ -103,7 +103,7 @@ def strategy(mode):
         lambda outer, shared, plans, workers: {"mode": mode, "outer": outer, "shared": shared, "plans": plans, "workers": workers},
         st.integers(0, 2),
         st.booleans(),
-        st.lists(sched.plans(max_segments=10, max_steps=6, workers=4), min_size=2, max_size=4),
+        st.lists(sched.plans(max_segments=10, max_steps=6, workers=4, min_segments=3), min_size=2, max_size=4),
         st.lists(worker(), min_size=2, max_size=4),
     )
 
